@@ -60,10 +60,47 @@ type Exec struct {
 	Data       any // scenario-private data (world) for the check
 	// StepFindings are findings raised by Scenario.AfterStep during the run.
 	StepFindings []Finding
+	// CleanupHung: clean-up calls (made by the scenario's finish function
+	// through Exec.Guarded after the explored part) that did not return within
+	// an hour of virtual time. Whether that is a violation is the scenario's
+	// business (it is for properties about shutdown).
+	CleanupHung []string
 	// Class: a readable classification of the outcome set by Scenario.Check;
 	// counted per scenario in the evidence (vacuity check: a race scenario in
 	// which one side always wins explored nothing).
 	Class string
+}
+
+// Guarded runs a clean-up call of a finish function in its own goroutine and
+// waits for it for at most an hour of virtual time. A library call that never
+// returns (a lock left held by an earlier call, say) must not hang the
+// execution: in a bubble with periodic timers (gossipsub heartbeats) there is no
+// deadlock to detect, virtual time just keeps running. Call inside the bubble,
+// in free-running mode.
+func (e *Exec) Guarded(what string, f func()) bool {
+	done := make(chan struct{})
+	go func() {
+		defer close(done)
+		defer func() {
+			if r := recover(); r != nil {
+				e.mu.Lock()
+				e.Panics = append(e.Panics, fmt.Sprintf("clean-up call %s panicked: %v", what, r))
+				e.mu.Unlock()
+			}
+		}()
+		f()
+	}()
+	t := time.NewTimer(time.Hour)
+	defer t.Stop()
+	select {
+	case <-done:
+		return true
+	case <-t.C:
+		e.mu.Lock()
+		e.CleanupHung = append(e.CleanupHung, what)
+		e.mu.Unlock()
+		return false
+	}
 }
 
 // Log appends to the observation log. It is a scheduling point, so the order
